@@ -697,6 +697,7 @@ func emitHandshakeResults(run *Run, res []hsResult) {
 		"auth": {"auth_case", "auth_mismatches"},
 		"up":   {"up_case", "up_mismatches"},
 		"insp": {"insp_case", "insp_mismatches"},
+		"upd":  {"upd_case", "upd_mismatches tls_manager_cached"},
 	}
 	for _, h := range res {
 		if h.Kind == "skip" { // recorded in the distribution only
@@ -717,7 +718,7 @@ func emitHandshakeResults(run *Run, res []hsResult) {
 			run.Sum.Samples = append(run.Sum.Samples, h.Rep)
 		}
 	}
-	for _, k := range []string{"sel", "auth", "up", "insp"} {
+	for _, k := range []string{"sel", "auth", "up", "insp", "upd"} {
 		if shards[k] != nil {
 			shards[k].Close()
 		}
@@ -1142,7 +1143,113 @@ func runHandshakes(run *Run, right, other *authority, ls []*listenerUnderTest, v
 			closer()
 		}
 	}
+	// ---- B5: one listener name configured again and again (LDS updates): the manager in force after every prefix ----
+	leafA, _ := right.issue("upd-a.test", []string{"upd-a.test"}, leafOpt{})
+	leafB, _ := right.issue("upd-b.test", []string{"upd-b.test"}, leafOpt{})
+	ctxSets := [][]int{{1}, {2}, {1, 2}, {}}
+	nHist := run.N(8, 40)
+	for hi := 0; hi < nHist; hi++ {
+		name := fmt.Sprintf("upd-%s-%d-%d", ver, run.Seed, hi)
+		type step struct {
+			ctxs []int
+			insp bool
+		}
+		var hist []step
+		cur := step{ctxs: ctxSets[r.Intn(3)], insp: r.Bool()}
+		hist = append(hist, cur)
+		for n := 1 + r.Intn(3); n > 0; n-- {
+			switch r.Intn(4) {
+			case 0, 1: // inspector flips, contexts unchanged
+				cur = step{ctxs: cur.ctxs, insp: !cur.insp}
+			case 2: // contexts change, inspector unchanged
+				cur = step{ctxs: ctxSets[r.Intn(len(ctxSets))], insp: cur.insp}
+			default:
+				cur = step{ctxs: ctxSets[r.Intn(len(ctxSets))], insp: r.Bool()}
+			}
+			hist = append(hist, cur)
+		}
+		var coqHist []string
+		var descr []map[string]interface{}
+		for si, st := range hist {
+			lc := &v2.Listener{}
+			lc.Name = name
+			lc.Inspector = st.insp
+			var tcs []v2.TLSConfig
+			for _, t := range st.ctxs {
+				lf := leafA
+				if t == 2 {
+					lf = leafB
+				}
+				tcs = append(tcs, v2.TLSConfig{Status: true, CertChain: lf.certPEM, PrivateKey: lf.keyPEM})
+			}
+			lc.FilterChains = []v2.FilterChain{{TLSContexts: tcs}}
+			mng, err := mtls.NewTLSServerContextManager(lc)
+			if err != nil {
+				panic(err)
+			}
+			var cs []string
+			for _, t := range st.ctxs {
+				cs = append(cs, fmt.Sprintf("%d%%nat", t))
+			}
+			coqHist = append(coqHist, fmt.Sprintf("(%s, %s)", CoqList(cs), CoqBool(st.insp)))
+			descr = append(descr, map[string]interface{}{"tls_contexts": st.ctxs, "inspector": st.insp})
+			for _, fb := range []int{'G', -1} {
+				code, served := probeManager(mng, maxVer, fb)
+				fbN := fb
+				if fb < 0 {
+					fbN = 22
+				}
+				rp := map[string]interface{}{"part": "manager-updates", "ver": ver, "listener": name, "history": append([]map[string]interface{}{}, descr...), "client": map[bool]string{true: "TLS ClientHello", false: "plaintext"}[fb < 0], "mode": code, "plaintext_served": served}
+				h := hsResult{Kind: "upd", Ver: ver, Key: fmt.Sprintf("upd|%s|%s|%d", ver, strings.Join(coqHist, ";"), fb), Kinds: []string{"manager-update-history-" + ver, fmt.Sprintf("manager-update-step=%d", si)}, Rep: rp,
+					Coq: fmt.Sprintf("(%s, %d%%N, %d%%N)", CoqList(coqHist), fbN, code)}
+				if len(st.ctxs) > 0 && !st.insp && served {
+					h.FailSig, h.FailWhat = "tls-inspector:plaintext-served-although-inspector-off:after-update", fmt.Sprintf("listener %s: after the update history %v the configuration in force has TLS contexts and inspector OFF, yet a plaintext client was served", name, descr)
+				}
+				if len(st.ctxs) > 0 && fb < 0 && code != 1 {
+					h.FailSig, h.FailWhat = "tls-inspector:tls-client-not-served:after-update", fmt.Sprintf("listener %s: after the update history %v a TLS client could not complete a handshake", name, descr)
+				}
+				out = append(out, h)
+			}
+		}
+	}
 	return out
 }
 
 var _ = x509.NewCertPool
+
+// probeManager connects once to a loopback server that passes the connection through mng.Conn().  firstByte >= 0: a
+// plaintext payload starting with that byte; firstByte < 0: a real TLS ClientHello.  Returns the mode code (0 raw, 1 tls,
+// 2 plain, 7 TLS handshake failed, 8 plaintext damaged) and whether plaintext was served intact.
+func probeManager(mng types.TLSContextManager, maxVer uint16, firstByte int) (int, bool) {
+	const n = 24
+	addr, results, closer := serveMOSN(mng, n)
+	defer closer()
+	conn, err := dialLocal(addr, hsTimeout)
+	if err != nil {
+		panic(err)
+	}
+	defer conn.Close()
+	conn.SetDeadline(time.Now().Add(hsTimeout))
+	if firstByte >= 0 {
+		payload := append([]byte{byte(firstByte)}, []byte("ET / HTTP/1.1 plaintext")...)[:n]
+		conn.Write(payload)
+		io.ReadFull(conn, make([]byte, 4))
+		so := <-results
+		served := (so.mode == 0 || so.mode == 2) && string(so.got) == string(payload)
+		if (so.mode == 0 || so.mode == 2) && !served {
+			return 8, false
+		}
+		return so.mode, served
+	}
+	tc := gotls.Client(conn, &gotls.Config{InsecureSkipVerify: true, MaxVersion: maxVer})
+	herr := tc.Handshake()
+	if herr == nil {
+		tc.Write(make([]byte, n))
+		io.ReadFull(tc, make([]byte, 4))
+	}
+	so := <-results
+	if so.mode == 1 && (so.hsErr != nil || herr != nil) {
+		return 7, false
+	}
+	return so.mode, false
+}
